@@ -63,6 +63,11 @@ type Corpus struct {
 	Reopen  bool   `json:"reopen,omitempty"` // FS only: close the writer, search through OpenReader
 	SegV2   bool   `json:"seg_v2,omitempty"` // ice segment version 2
 	Merge   bool   `json:"merge,omitempty"`  // leave the default merger on
+	// Offline > 0: the live documents (what the batches leave) are written through
+	// bluge.OpenOfflineWriter with this batch size and searched through OpenReader: the segments of
+	// the batches are merged when the writer is closed, deterministically - merged segments use
+	// encodings fresh ones never have (one-document postings lists inside the dictionary)
+	Offline int    `json:"offline,omitempty"`
 	Batches [][]Op `json:"batches"`
 }
 
@@ -252,6 +257,9 @@ func genCorpus(t *rapid.T, p *pools) Corpus {
 	// (getDocStoredOffsets, third-party, vlib.IceV2OffsetsPanicKey) - in the merger's goroutine,
 	// which ends the process
 	c.SegV2 = uni(t, 20, "segV2") == 0 && !c.Merge
+	if uni(t, 12, "offline") == 0 {
+		c = Corpus{Offline: rapid.IntRange(1, 9).Draw(t, "offlineBatch")}
+	}
 	nDocs := rapid.IntRange(5, 40).Draw(t, "nDocs")
 	nBatches := rapid.IntRange(2, 6).Draw(t, "nBatches")
 	var live []string
@@ -565,6 +573,9 @@ func openCorpusUnguarded(c Corpus) (*opened, *vlib.Failure) {
 	o := &opened{}
 	var cfg bluge.Config
 	var dir string
+	if c.Offline > 0 {
+		return openOffline(c)
+	}
 	if c.FS {
 		var err error
 		dir, err = scratchDir()
@@ -636,6 +647,43 @@ func openCorpusUnguarded(c Corpus) (*opened, *vlib.Failure) {
 		o.cleanup = func() { _ = r.Close(); _ = w.Close(); rm() }
 	}
 	for _, s := range o.reader.VerifSnapshot().VerifSegmentInfo() {
+		o.segments++
+		if s.Deleted != nil {
+			o.pending += int(s.Deleted.GetCardinality())
+		}
+	}
+	return o, nil
+}
+
+func openOffline(c Corpus) (*opened, *vlib.Failure) {
+	dir, err := scratchDir()
+	if err != nil {
+		return nil, vlib.Failf("harness-scratch", "%v", err)
+	}
+	rm := func() { _ = os.RemoveAll(dir) }
+	cfg := bluge.DefaultConfig(dir)
+	w, err := bluge.OpenOfflineWriter(cfg, c.Offline, 10)
+	if err != nil {
+		rm()
+		return nil, vlib.Failf("open-writer", "OpenOfflineWriter: %v", err)
+	}
+	for _, d := range c.liveDocs() {
+		if err := w.Insert(buildDoc(d)); err != nil {
+			rm()
+			return nil, vlib.Failf("batch-error", "offline Insert: %v", err)
+		}
+	}
+	if err := w.Close(); err != nil {
+		rm()
+		return nil, vlib.Failf("writer-close", "offline Close: %v", err)
+	}
+	r, err := bluge.OpenReader(cfg)
+	if err != nil {
+		rm()
+		return nil, vlib.Failf("open-reader", "OpenReader: %v", err)
+	}
+	o := &opened{reader: r, cleanup: func() { _ = r.Close(); rm() }}
+	for _, s := range r.VerifSnapshot().VerifSegmentInfo() {
 		o.segments++
 		if s.Deleted != nil {
 			o.pending += int(s.Deleted.GetCardinality())
